@@ -33,9 +33,10 @@ FILE_CFG = 'SPECIFICATION Spec\nINVARIANT OpIsDecl\nINVARIANT OneClassPerResidue
 ROUTE_CFG = ('SPECIFICATION Spec\nINVARIANT OthersUntouched\nINVARIANT ErrorIffSomeAnswerUnusable\nINVARIANT FailingMoleculeUntouched\n'
              'INVARIANT EveryClassLands\nINVARIANT TranslationKeepsLength\n')
 SHAPES = ['exact', 'breaks', 'short', 'shortbrk', 'long', 'badclass', 'nohead', 'fail']
+SHAPES_QUICK = ['exact', 'breaks', 'short', 'shortbrk', 'long', 'fail']      # unreadable answers are the file model's business
 POOL_QUICK = ['hdr', 'near3', 'table', 'rH', 'rEdec', 'r_', 'rP', 's16', 'brk', 'empty', 'v1', 'hist']
-POOL_MORE = ['near2', 'near4', 'rC', 'r_17', 'brk1', 's1']
-ROW_POOL = ['rH', 'rE', 'r_', 'rS', 'rH17', 'rEdec', 'rP', 'rC', 'rh', 's16', 's1', 'brk', 'brk1', 'empty', 'table', 'near1']
+POOL_MORE = ['near2', 'rC', 'brk1']
+ROW_POOL = ['rH', 'rE', 'r_', 'rS', 'rH17', 'r_17', 'rEdec', 'rP', 'rC', 'rh', 's16', 's1', 'brk', 'brk1', 'empty', 'table', 'near1']
 PROTEIN_NAMES = ['ALA', 'GLY', 'SER', 'THR', 'LYS', 'GLU', 'HSD', 'LYN']
 OTHER_NAMES = ['LIG', 'BENZ', 'XYZ', 'POPC']
 VERSIONS = ['mkdssp 3.0.0\n', '2.2.1\n', 'DSSP version 2.2.1 (scripted)\n', 'mkdssp version 4.4.10\n']
@@ -70,9 +71,8 @@ def serve(argv, here):
     if k >= len(plan['calls']):
         return 70, '', 'no answer planned for run %d' % k
     call = plan['calls'][k]
-    if call['status']:
-        return call['status'], '', 'scripted failure'
-    return 0, call['text'], ''
+    # a failing DSSP may well have printed a complete table before it gave up: the exit status alone decides
+    return call['status'], call['text'], 'scripted failure' if call['status'] else ''
 '''
 _ns = {}
 exec(FAKE_SRC, _ns)
@@ -280,13 +280,13 @@ def _file_chunk(args):
     states, table = args
     from vermouth.dssp.dssp import read_dssp2
     n, skipped, bad = 0, 0, []
-    for st in states:
+    for idx, st in enumerate(states):
         exp = st['out']
         if exp.get('unspecified'):
             skipped += 1
             continue
         lines = [table[k] for k in st['kinds']]
-        for presentation in range(2):          # a list of lines / a generator (the docstring allows any iterable)
+        for presentation in range(2 if idx % 4 == 0 else 1):      # a list of lines / a generator (any iterable is allowed)
             try:
                 got = read_dssp2(lines if presentation == 0 else (line for line in lines))
                 err = False
@@ -368,7 +368,7 @@ def random_file(rng, table):
         if k.startswith('r') and len(text) >= 17:
             text = '%5d%5d %s ' % (i % 100000, (i * 7) % 10000, rng.choice('AB')) + text[13:]
         lines.append(text)
-    return lines
+    return lines, ('defect' if defect < 0.20 and (rows or defect >= 0.10) else 'plain')
 
 
 def _file_events(args):
@@ -377,12 +377,13 @@ def _file_events(args):
     rng = random.Random(seed)
     out = []
     for _ in range(n):
-        lines = random_file(rng, table)
+        lines, planned = random_file(rng, table)
         try:
             got, err = read_dssp2(iter(lines)), False
         except IOError:
             got, err = [], True
-        out.append({'kind': 'file', 'lines': [list(line) for line in lines], 'err': err, 'out': [str(c) for c in got]})
+        out.append({'kind': 'file', 'lines': [list(line) for line in lines], 'err': err, 'out': [str(c) for c in got],
+                    'planned': planned})
     return out
 
 
@@ -428,7 +429,7 @@ def random_dssp_case(rng, table, max_mols=5, max_res=24):
         if s in ('short', 'shortbrk') and m['nres'] == 2:      # one class for a two-residue molecule: not specified
             s = 'long'
         calls.append(random_answer(rng, table, m['nres'], s))
-    return mols, calls
+    return mols, calls, ('defect' if bad else 'plain')
 
 
 def _dssp_events(args):
@@ -436,8 +437,8 @@ def _dssp_events(args):
     rng = random.Random(seed)
     out = []
     for i in range(n):
-        mols, calls = random_dssp_case(rng, table)
-        out.append(run_library(mols, calls, rng, 'exe' if i % 3 == 0 else 'shim'))
+        mols, calls, planned = random_dssp_case(rng, table)
+        out.append(dict(run_library(mols, calls, rng, 'exe' if i % 6 == 0 else 'shim'), planned=planned))
     return out
 
 
@@ -460,7 +461,9 @@ def benzene(serial, chain, resid, centre):
 def build_pdb(chains, rng):
     """chains: [{'code': 'P'|'W'|'S'|'H'|'L', 'label': 'A', 'scheme': ...}] in file order; 'L' = a benzene molecule
     (HETATM, known to the charmm force field and mapped to Martini 3: it survives as a NON-protein molecule).
-    Returns (pdb text, per-chain [{'label','protein','nres','ids': [(resid, icode)]}])."""
+    Residue numbers of a peptide follow ch['scheme']: increasing, decreasing, restarting (1..p 1..p with (number, name)
+    unique), wrapping 9999 -> 0, insertion codes 52 52A 52B.
+    Returns (pdb text, per-chain [{'label','protein','nres','ids': [(resid, icode, resname)] in FILE order}])."""
     from . import cli_c03
     out = ['CRYST1  900.000  900.000  900.000  90.00  90.00  90.00 P 1           1']
     serial, info = 1, []
@@ -471,20 +474,28 @@ def build_pdb(chains, rng):
             lines, serial = benzene(serial, label, resid, (60.0 * ci + 10.0, 400.0, 400.0))
             out += lines + ['TER']
             serial += 1
-            info.append({'label': label, 'protein': False, 'nres': 1, 'ids': [(resid, '')]})
+            info.append({'label': label, 'protein': False, 'nres': 1, 'ids': [(resid, '', 'BENZ')]})
             continue
         path = os.path.join(cli_c03.TESTS, cli_c03.PEPTIDES[ch['code']], 'aa.pdb')
         atoms = [line.ljust(80) for line in open(path).read().splitlines() if line.startswith('ATOM')]
-        order = []
+        order, resnames = [], []
         for line in atoms:
             if line[22:27] not in order:
                 order.append(line[22:27])
-        idents = identities(len(order), ch.get('scheme', 'inc'), ['X'], rng)
-        if ch.get('scheme') in ('restart', 'chains'):       # on the command line a chain is one chain: keep (resid, icode) unique
-            idents = identities(len(order), 'dec', ['X'], rng)
-        ids = [(i[1], i[2]) for i in idents]
+                resnames.append(line[17:20].strip())
+        scheme = ch.get('scheme', 'inc')
+        if scheme == 'chains':                              # on the command line a chain is one chain
+            scheme = 'dec'
+        if scheme == 'restart':                             # 1 2 .. p 1 2 .. p: (number, residue name) stays unique
+            period = next((q for q in range(3, len(order)) if len({(r % q, resnames[r]) for r in range(len(order))}) == len(order)), None)
+            ids = [(r % period + 1, '', resnames[r]) for r in range(len(order))] if period else None
+        else:
+            ids = None
+        if ids is None:
+            idents = identities(len(order), scheme if scheme != 'restart' else 'dec', ['X'], rng)
+            ids = [(i[1], i[2], resnames[r]) for r, i in enumerate(idents)]
         for line in atoms:
-            resid, icode = ids[order.index(line[22:27])]
+            resid, icode, _ = ids[order.index(line[22:27])]
             x = float(line[30:38]) + 60.0 * ci
             out.append('%s%5d%s%s%4d%s%s%8.3f%s' % (line[:6], serial, line[11:21], label, resid, icode or ' ', line[27:30], x,
                                                    line[38:].rstrip()))
@@ -526,7 +537,7 @@ def cli_case(case):
             ids = chain['ids']
             per = {}
             for _, d in mol.nodes(data=True):
-                key = (d.get('resid'), d.get('insertion_code') or '')
+                key = (d.get('resid'), d.get('insertion_code') or '', d.get('resname'))
                 if key not in ids:
                     return None
                 r = ids.index(key)
@@ -600,6 +611,19 @@ def cli_case(case):
             argv += ['-ss', case['ss']]
         elif case['mode'] == 'collagen':
             argv += ['-collagen']
+        elif case['mode'] == 'mdtraj':
+            # `-dssp` without an executable: MDTraj computes the classes.  What it computes is not ours to judge; WHERE the
+            # classes end up is: its answers are recorded and the run is judged like `-ss <all answers in system order>`.
+            if not D.HAVE_MDTRAJ:
+                return {'kind': 'inconclusive', 'argv': '-dssp', 'why': 'mdtraj not importable', 'rc': 0, 'exc': ''}
+            real_md = D.run_mdtraj
+
+            def recorded(system):
+                answer = real_md(system)
+                snap.setdefault('md', []).append([str(c) for c in answer])
+                return answer
+            D.run_mdtraj = recorded
+            argv += ['-dssp']
         else:
             exe = write_fake(root, case['calls'], case.get('version', VERSIONS[0]))
             argv += ['-dssp', exe]
@@ -612,7 +636,8 @@ def cli_case(case):
                 rc = exc.code if isinstance(exc.code, int) else (0 if exc.code is None else 1)
             except Exception as exc:
                 rc, exc_name = -1, type(exc).__name__ + ': ' + str(exc)[:200]
-        base = {'argv': ' '.join(argv), 'chains': case['chains'], 'rc': rc, 'exc': snap.get('raised', exc_name)}
+        base = {'argv': ' '.join(argv), 'chains': case['chains'], 'extra': list(case.get('extra', [])), 'seed': case['seed'],
+                'version': case.get('version', VERSIONS[0]), 'planned': case.get('planned', 'plain'), 'rc': rc, 'exc': snap.get('raised', exc_name)}
         if 'problem' in snap:
             return dict(base, kind='inconclusive', why=snap['problem'])
         wrote = 'beads' in snap
@@ -621,7 +646,7 @@ def cli_case(case):
             return dict(base, kind='inconclusive', why='the pipeline failed outside the annotation: %s' % exc_name)
         if rc not in (0, -1) or (rc == 0 and not wrote):
             return dict(base, kind='inconclusive', why='exit status %s: %s' % (rc, log.getvalue()[-300:]))
-        tags = {'ss': ['martini', 'residues'], 'collagen': ['residues'], 'dssp': ['martini', 'dssp']}[case['mode']]
+        tags = {'ss': ['martini', 'residues'], 'collagen': ['residues'], 'dssp': ['martini', 'dssp'], 'mdtraj': ['martini', 'dssp']}[case['mode']]
         stage = next((t for t in tags if t + '_labels' in snap), None)
         if stage is None:
             return dict(base, kind='inconclusive', why='annotation stage never reached: rc=%s %s %s' % (rc, exc_name, log.getvalue()[-300:]))
@@ -639,10 +664,12 @@ def cli_case(case):
         hdr = list(snap.get('hdr', '-')) or ['-']
         nonsorting = any(by_label[l]['protein'] and by_label[l]['ids'] != sorted(by_label[l]['ids']) for l in labels) or \
             [l for l in labels if by_label[l]['protein']] != sorted(l for l in labels if by_label[l]['protein'])
-        if case['mode'] in ('ss', 'collagen'):
-            return dict(base, kind='cli', mode=case['mode'],
+        if case['mode'] in ('ss', 'collagen', 'mdtraj'):
+            if case['mode'] == 'mdtraj':
+                case = dict(case, ss=''.join(c for answer in snap.get('md', []) for c in answer))
+            return dict(base, kind='cli', mode='ss' if case['mode'] == 'mdtraj' else case['mode'], route=case['mode'],
                         system=[{'sel': by_label[l]['protein'], 'nres': by_label[l]['nres']} for l in labels],
-                        seq=list(case['ss']) if case['mode'] == 'ss' else ['F'], err=err, aa=aa, cg=cg,
+                        seq=list(case['ss']) if case['mode'] != 'collagen' else ['F'], err=err, aa=aa, cg=cg,
                         beads=beads if wrote else cg, hdr=hdr, nonsorting=nonsorting, wrote=wrote)
         natoms = snap.get('dssp_before_natoms', [0] * len(labels))
         saved = []
@@ -689,13 +716,13 @@ def cli_plan(tier, seed, table):
     cases = []
 
     def chains_of(codes, schemes=None):
-        return [{'code': c, 'label': LABELS[i], 'scheme': (schemes or {}).get(i, rng.choice(['inc', 'dec', 'wrap', 'icode']) if c != 'L' else 'inc')}
+        return [{'code': c, 'label': LABELS[i], 'scheme': (schemes or {}).get(i, rng.choice(['inc', 'dec', 'wrap', 'icode', 'restart']) if c != 'L' else 'inc')}
                 for i, c in enumerate(codes)]
     nres = {'P': 2, 'W': 20, 'S': 29, 'H': 43, 'L': 0}
 
     def total(codes):
         return sum(nres[c] for c in codes)
-    orders = ['LWP', 'WLP', 'PWL', 'LPL', 'PLW', 'LLW', 'WLL', 'WP'] if quick else \
+    orders = ['LWP', 'WLP', 'PWL', 'LPL', 'LLW', 'WP'] if quick else \
         ['LWP', 'WLP', 'PWL', 'LPL', 'PLW', 'LLW', 'WLL', 'WP', 'LPW', 'PLLW', 'LWLP', 'HLP', 'LH', 'SLW', 'W', 'LHLW']
     for codes in orders:                                  # full-length string
         cases.append({'chains': chains_of(codes), 'mode': 'ss', 'ss': ss_string(rng, total(codes))})
@@ -713,19 +740,31 @@ def cli_plan(tier, seed, table):
     if not quick:
         cases.append({'chains': chains_of('PW'), 'mode': 'collagen', 'ss': 'F', 'extra': ['-ff', 'martini22']})   # a force field WITH collagen
     cases.append({'chains': chains_of('WLP', {0: 'dec', 2: 'inc'}), 'mode': 'ss', 'ss': ss_string(rng, 22), 'extra': ['-merge', 'B,D']})
-    dssp_orders = ['LWP', 'WLP', 'PLW', 'WP'] if quick else ['LWP', 'WLP', 'PLW', 'WP', 'LPLW', 'HLP', 'LH', 'PWL', 'SLW']
+    dssp_orders = ['LWP', 'WLP', 'PLW'] if quick else ['LWP', 'WLP', 'PLW', 'WP', 'LPLW', 'HLP', 'LH', 'PWL', 'SLW']
     for codes in dssp_orders:
         chains = chains_of(codes)
         calls = [random_answer(rng, table, nres[c], rng.choice(['exact', 'breaks'])) for c in codes if c != 'L']
         cases.append({'chains': chains, 'mode': 'dssp', 'ss': '', 'calls': calls, 'version': rng.choice(VERSIONS)})
-    for codes, shape in ([('LWP', 'long'), ('WLP', 'shortbrk')] if quick else
-                         [('LWP', 'long'), ('WLP', 'shortbrk'), ('PLW', 'badclass'), ('LWP', 'fail'), ('WLW', 'nohead'), ('WLH', 'short')]):
+    bad_dssp = [('LWP', 'long'), ('WLP', 'shortbrk'), ('PLW', 'fail')] if quick else \
+        [('LWP', 'long'), ('WLP', 'shortbrk'), ('PLW', 'badclass'), ('LWP', 'fail'), ('WLW', 'nohead'), ('WLH', 'short')]
+    n_bad_dssp = len(bad_dssp)
+    for codes, shape in bad_dssp:
         chains = chains_of(codes)
         prot = [c for c in codes if c != 'L']
         bad_at = rng.randrange(len(prot))
-        calls = [random_answer(rng, table, nres[c], shape if j == bad_at and nres[c] > 2 else ('long' if j == bad_at else 'exact'))
-                 for j, c in enumerate(prot)]
+        calls = [random_answer(rng, table, nres[c], 'exact' if j != bad_at else
+                               ('long' if shape in ('short', 'shortbrk') and nres[c] == 2 else shape)) for j, c in enumerate(prot)]
         cases.append({'chains': chains, 'mode': 'dssp', 'ss': '', 'calls': calls, 'version': VERSIONS[0]})
+    for codes in (['WLP'] if quick else ['WLP', 'LSW', 'HLP']):                      # -dssp without executable: MDTraj
+        cases.insert(0, {'chains': chains_of(codes, {i: 'icode' for i in range(len(codes))}), 'mode': 'mdtraj', 'ss': ''})
     for i, c in enumerate(cases):
         c['seed'] = seed * 1000 + i
+        if c['mode'] == 'ss':
+            n = total([ch['code'] for ch in c['chains']])
+            lens = {nres[ch['code']] for ch in c['chains'] if ch['code'] != 'L'}
+            c['planned'] = 'plain' if len(c['ss']) in (1, n) or (len(lens) == 1 and len(c['ss']) in lens) else 'defect'
+        elif c['mode'] == 'dssp':
+            c['planned'] = 'defect' if i >= len(cases) - n_bad_dssp else 'plain'
+        else:
+            c['planned'] = 'plain'
     return cases
